@@ -71,7 +71,10 @@ def eval_case(job):
     res['impl'] = {}
     for caching in opts.get('caching', (False, True)):
         with CacheProbe() as probe:
-            outs = impl.run_case(case, caching=caching, evaluations=opts.get('evals', 2))
+            tree = []
+            outs = impl.run_case(case, caching=caching, evaluations=opts.get('evals', 2), tree_out=tree)
+            if tree:
+                res['tree'] = tree[0]
         key = 'on' if caching else 'off'
         rendered = []
         for out in outs:
@@ -92,9 +95,9 @@ def parse_driver_line(line):
     if line.startswith('ERR'):
         raise HarnessError('driver: ' + line)
     parts = line.split('\t')
-    if len(parts) != 5 or parts[3] != 'S':
+    if len(parts) != 7 or parts[3] != 'S' or parts[5] != 'B':
         raise HarnessError('driver: ' + line)
-    out = {'id': parts[0], 'lspec': [x for x in parts[4].split(';') if x]}
+    out = {'id': parts[0], 'lspec': [x for x in parts[4].split(';') if x], 'tree': parts[6]}
     if parts[1] == 'R':
         out['model'] = ('rows', [x for x in parts[2].split(';') if x])
     elif parts[1] == 'T':
